@@ -337,5 +337,6 @@ class Capabilities(dict[int, Capability]):
                     capability, capv, value = _key_values('capability', value)
                     capabilities[capability] = Capability.unpack(CapabilityCode(capability), capabilities, capv)
             else:
-                raise Notify(2, 0, 'Unknow OPEN parameter {}'.format(hex(key)))
+                # RFC 4271 6.2: an Optional Parameter which is not recognized is Unsupported Optional Parameters (2/4)
+                raise Notify(2, 4, 'Unknow OPEN parameter {}'.format(hex(key)))
         return capabilities
